@@ -111,6 +111,7 @@ def generate(tier, rng):
     for i, c in enumerate(cases):
         if "history" not in c:
             c["history"] = sd.HISTORIES[i % 4]
+        c.setdefault("layout", "F" if (i // 4) % 2 else "C")      # the memory layout of the driver array
     return cases
 
 
